@@ -3,6 +3,7 @@
 use std::marker::PhantomData;
 
 use vwf::BaseFut;
+use winter_maybe_async::maybe_async;
 use winter_crypto::{DefaultRandomCoin, ElementHasher, MerkleTree};
 use winter_math::FieldElement;
 use winterfell::matrix::ColMatrix;
@@ -112,6 +113,7 @@ where
         &self.options
     }
 
+    #[maybe_async]
     fn new_trace_lde<E: FieldElement<BaseField = B>>(
         &self,
         trace_info: &TraceInfo,
@@ -122,6 +124,7 @@ where
         DefaultTraceLde::new(trace_info, main_trace, domain, partition_option)
     }
 
+    #[maybe_async]
     fn new_evaluator<'a, E: FieldElement<BaseField = B>>(
         &self,
         air: &'a GenAir<B>,
@@ -131,6 +134,7 @@ where
         DefaultConstraintEvaluator::new(air, aux_rand_elements, composition_coefficients)
     }
 
+    #[maybe_async]
     fn build_constraint_commitment<E: FieldElement<BaseField = B>>(
         &self,
         composition_poly_trace: CompositionPolyTrace<E>,
@@ -141,6 +145,7 @@ where
         DefaultConstraintCommitment::new(composition_poly_trace, num_constraint_composition_columns, domain, partition_options)
     }
 
+    #[maybe_async]
     fn build_aux_trace<E: FieldElement<BaseField = B>>(&self, main_trace: &GenTrace<B>, aux_rand_elements: &AuxRandElements<E>) -> ColMatrix<E> {
         build_aux::<B, E>(&self.spec, main_trace.main_segment(), aux_rand_elements.rand_elements(), self.corrupt_aux)
     }
